@@ -61,9 +61,44 @@ func init() {
 				p.anchorFail("converters.CachedConverter.Reset / manager.Manager.converters")
 				return
 			}
+			// helpers that turn a path into a converter name: one string in, one string out, TrimSuffix(…, filepath.Ext(…))
+			nameHelpers := map[*types.Func]bool{}
+			for _, g := range p.FnList {
+				if g.Short != "manager" || g.Lit != nil || g.Decl == nil || g.Body() == nil || g.Decl.Type.Results == nil || len(g.Decl.Type.Results.List) != 1 {
+					continue
+				}
+				ginfo := g.Pkg.TypesInfo
+				if t := ginfo.TypeOf(g.Decl.Type.Results.List[0].Type); t == nil || types.TypeString(t, nil) != "string" {
+					continue
+				}
+				hit := false
+				inspectShallow(g.Body(), func(x ast.Node) bool {
+					if c, ok := x.(*ast.CallExpr); ok {
+						if fn := p.Callee(g.Pkg, c); fn != nil && fn.FullName() == "strings.TrimSuffix" && len(c.Args) == 2 {
+							ast.Inspect(c.Args[1], func(y ast.Node) bool {
+								if cc, ok := y.(*ast.CallExpr); ok {
+									if e := p.Callee(g.Pkg, cc); e != nil && e.FullName() == "path/filepath.Ext" {
+										hit = true
+									}
+								}
+								return true
+							})
+						}
+					}
+					return true
+				})
+				if hit {
+					if fo, ok := ginfo.Defs[g.Decl.Name].(*types.Func); ok {
+						nameHelpers[fo] = true
+					}
+				}
+			}
 			n := 0
 			for _, f := range p.FnList {
 				if f.Short != "manager" || f.Decl == nil || f.Body() == nil {
+					continue
+				}
+				if fo, ok := f.Pkg.TypesInfo.Defs[f.Decl.Name].(*types.Func); ok && nameHelpers[fo] {
 					continue
 				}
 				info := f.Pkg.TypesInfo
@@ -79,7 +114,7 @@ func init() {
 				if len(params) == 0 {
 					continue
 				}
-				// name := strings.TrimSuffix(filepath.Base(p), filepath.Ext(p))
+				// name := strings.TrimSuffix(filepath.Base(p), filepath.Ext(p)), in place or through a helper of the package
 				derives := false
 				inspectShallow(f.Body(), func(x ast.Node) bool {
 					c, ok := x.(*ast.CallExpr)
@@ -87,6 +122,14 @@ func init() {
 						return true
 					}
 					fn := p.Callee(f.Pkg, c)
+					if fn != nil && nameHelpers[fn.Origin()] {
+						for _, a := range c.Args {
+							if params[identObj(info, a)] {
+								derives = true
+							}
+						}
+						return true
+					}
 					if fn == nil || fn.FullName() != "strings.TrimSuffix" || len(c.Args) != 2 {
 						return true
 					}
@@ -110,6 +153,26 @@ func init() {
 				if !derives {
 					continue
 				}
+				exeLocals := map[types.Object]bool{}
+				inspectShallow(f.Body(), func(x ast.Node) bool {
+					if as, ok := x.(*ast.AssignStmt); ok && len(as.Lhs) == len(as.Rhs) {
+						for i, l := range as.Lhs {
+							uses := false
+							ast.Inspect(as.Rhs[i], func(y ast.Node) bool {
+								if c, ok := y.(*ast.CallExpr); ok {
+									if se, ok := ast.Unparen(c.Fun).(*ast.SelectorExpr); ok && se.Sel.Name == "ExecutablePath" {
+										uses = true
+									}
+								}
+								return true
+							})
+							if o := identObj(info, l); o != nil && uses {
+								exeLocals[o] = true
+							}
+						}
+					}
+					return true
+				})
 				fl := p.Flow(f)
 				destructive := func(nd ast.Node) (bool, string) {
 					hit, what := false, ""
@@ -150,6 +213,10 @@ func init() {
 							if se, ok := ast.Unparen(c.Fun).(*ast.SelectorExpr); ok && se.Sel.Name == "ExecutablePath" {
 								consults = true
 							}
+						}
+						// a local that holds (something computed from) the executable path
+						if id, ok := y.(*ast.Ident); ok && exeLocals[info.Uses[id]] {
+							consults = true
 						}
 						return true
 					})
